@@ -114,7 +114,7 @@ def step (d : D) (line : String) : D × String :=
     | none => bad
   | ["run", "sync"] =>
     if st.threaded then bad else
-    let (ok, st) := sync (st.tape.length * 2 + 10) st
+    let (ok, st) := sync (tapeFuel st) st
     let (st, tr) := flush (st.emit s!"ret {if ok then 0 else -1}")
     ({ d with st := st }, "\n".intercalate (tr ++ ["end"]))
   | ["run", "wait"] =>
@@ -125,7 +125,7 @@ def step (d : D) (line : String) : D × String :=
   | ["run", "fsm"] =>
     if st.threaded || d.fsmRan || st.s.state = .shutdown then bad else
     let budget := (st.tape.length + st.sendQ.length + st.openQ.length) * 8 + 64
-    let st := fsmStart budget (st.tape.length * 2 + 10) st
+    let st := fsmStart budget (tapeFuel st) st
     let (st, tr) := flush st
     ({ st := st, fsmRan := true }, "\n".intercalate (tr ++ ["end"]))
   | ["run", "stop"] =>
@@ -133,6 +133,12 @@ def step (d : D) (line : String) : D × String :=
     let st := stop st
     let (st, tr) := flush st
     ({ st := { st with tape := [] }, fsmRan := false }, "\n".intercalate (tr ++ ["end"]))
+  | ["val", v, a, len, asn] =>
+    match hexToNat? a, len.toNat?, asn.toNat? with
+    | some a, some len, some asn =>
+      if (v ≠ "4" ∧ v ≠ "6") || len > 255 || asn > 4294967295 || a ≥ 2 ^ (if v = "6" then 128 else 32) then bad
+      else (d, validate st (v = "6") asn a len)
+    | _, _, _ => bad
   | ["show"] => (d, showSock st)
   | ["dump"] => (d, "\n".intercalate (dumpLines "D" st))
   | _ => bad
